@@ -28,10 +28,16 @@ META = {
                   'test" use of TLC, not a behavioural model: the state machine is only the stream log of the live '
                   'server.  Decides the envelope framing; protobuf decoding itself is trusted (exercised with valid, '
                   'invalid and exact-size payloads).  Bounds: quick len in 0..17+{24,25,28,29}, 37 HeaderLen values, '
-                  '1 filling; thorough all 256 HeaderLen values, lens up to 44, 3 fillings.  Internal RPC subjects '
-                  '(propagate, server info, partition status, notification, replication / leader-offset request) are fed '
-                  'the same byte classes plus well-formed requests with missing sub-messages; the Raft join subject is not '
-                  '(a join request legitimately changes the cluster).',
+                  '1 filling; thorough all 256 HeaderLen values, lens up to 44, 3 fillings.  The NATS subjects of a server '
+                  'are an inventory in the specification (Envelope!Subjects), compared with the live subscription list of '
+                  'the embedded NATS server and with the subscribe / request call sites of the source (a difference is '
+                  'drift).  Fed on a one-node server: propagate, server info, partition status, notification, replication '
+                  '/ leader-offset request, Raft join (own id only), Raft transport accept (bytes only), the ack inbox of '
+                  'a Publish call and of a PublishAsync session - byte classes x well-formed requests naming entities '
+                  'that are absent / present / out of range / at the int32 boundaries.  Not fed: the two bootstrap '
+                  'subjects (a message from another server is fatal by design) and the reply inboxes that exist only '
+                  'with a second server (replication / offset responses on a follower, info / status / propagation / '
+                  'join responses).',
     'design_ref': 'DESIGN.md section 6/C14',
 }
 
@@ -286,7 +292,7 @@ def run_server(rep, d, behaviours, tracecfg, stats):
         mine = [e for e in got if e.get('t') == it['t']]
         if len(mine) != it.get('lines', it['step'] + 1):  # Open + the lines of the completed steps
             raise core.Inconclusive('process died outside a pending step: %s' % out[-3000:])
-        stored = mine[-1]['st']['stored']
+        stored = [e for e in mine if 'st' in e][-1]['st']['stored']      # (the Inventory line carries no state)
         a = it.get('a', 'PublishRaw')
         obs = {'a': a, 'k': 'Crash', 'same': False}
         if a == 'ReadBack':
@@ -370,7 +376,7 @@ def run(rep, tier, seed, replay):
         gocfg2 = dict(gocfg, fills=max(3, T['fills']))      # one filling per payload shape: plain / hdrNoValue / hdrReserved
         n2, nt2, s2 = run_table(rep, d, 'server', '^TestVerifC14Nats$', gocfg2, T['trace'], stats)
         # 4. publish sequences on a live server
-        sims = core.tlc_simulate('MC_Envelope.tla', T['sim'], T['sims'], T['depth'], seed)
+        sims = core.tlc_simulate('MC_Envelope.tla', T['sim'], T['sims'], T['depth'], seed, timeout=1500)
         behaviours = []
         for n, b in enumerate(sims):
             steps = []
